@@ -44,6 +44,10 @@ const (
 	CBWrapped                         // wrapped callback that logs
 	CBWrappedFail                     // wrapped callback that returns an error
 	CBOther                           // an 'other' callback with the same signature (overrides default)
+	// CBWrappedReenter: a wrapped callback that, like real applications do (notify followers, send a
+	// reply), calls back into the library in the same context: one Send of a Note from the inbox /
+	// outbox owner. The library must not hold any lock while it runs application callbacks.
+	CBWrappedReenter
 )
 
 // FilterMode selects the FilterForwarding answer.
@@ -53,6 +57,8 @@ const (
 	FilterAll FilterMode = iota
 	FilterFirst
 	FilterNone
+	FilterLastInPlace    // keeps the last collection only, filtering the argument slice in place
+	FilterReverseInPlace // keeps everything, reversing the argument slice in place
 )
 
 // Call is one entry of the seam call log.
@@ -110,6 +116,8 @@ type Req struct {
 	IDs        int    // ids generated for this request
 	WaitSite   string // library function of the last blocking Lock attempt
 	WaitID     string // id it tried to lock
+	Reentered  bool   // CBWrappedReenter: the re-entrant Send was made (once per request)
+	ReenterErr error
 }
 
 type reqKey struct{}
